@@ -69,13 +69,17 @@ class SearchView:
           self.pushed.append(Pushed(n, call, dn, ctor))
 
   def loops_enclosing(self, node):
-    """Loop header nodes whose natural loop contains `node`, innermost last."""
+    """Header nodes of the loops that syntactically enclose `node`, outermost first."""
     hs = []
-    for h in self.g.nodes:
-      if h.kind in ('for', 'test') and isinstance(h.ast, (ast.For, ast.While)) and h is not node:
-        if node in self.g.loop_body_nodes(h):
-          hs.append(h)
-    hs.sort(key=lambda h: len(self.g.loop_body_nodes(h)), reverse=True)
+    cur = node.ast
+    par = getattr(cur, '_parent', None)
+    while par is not None and par is not self.f.node:
+      if isinstance(par, (ast.For, ast.While)) and id(par) in self.g.stmt_node:
+        # only when the node is in the loop body, not in its else clause
+        if not any(cur is s for s in par.orelse):
+          hs.append(self.g.stmt_node[id(par)])
+      cur, par = par, getattr(par, '_parent', None)
+    hs.reverse()
     return hs
 
   def loop_binding(self, node, name):
